@@ -385,7 +385,13 @@ def main():
                 res.setdefault('divergences', []).append(div)
             for f in st['oracle_fail']:
                 m = re.search(r'key=(\S+)', f)
-                failing.append(dict(kind='microdiff-oracle', component=comp, key=m.group(1) if m else f'{comp}:{f[:60]}', what=f))
+                key = m.group(1) if m else f'{comp}:{f[:60]}'
+                # a component may serve several properties: a key that names its property (`Cxx-…`) counts for that one only
+                mk = re.match(r'(C\d\d)-', key)
+                if mk and mk.group(1) != pid and mk.group(1) in P.PROPS:
+                    st.setdefault('other_property_failures', []).append(f[:200])
+                    continue
+                failing.append(dict(kind='microdiff-oracle', component=comp, key=key, what=f))
         for b in cfg.get('bins', []):
             # stand-alone harness binaries: <bin> <seed> <n> <prefix> writing .ops/.impl/.stats
             name, qn, tn = b
